@@ -4,7 +4,7 @@ import copy
 from .. import gen, common, conc
 from . import seqprop
 
-GEN = ['JsonUtilGen.v', 'Decisions.v', 'CacheGen.v']
+GEN = ['JsonUtilGen.v', 'Decisions.v', 'CacheGen.v', 'OpsGen.v']
 DECISIONS = ['Cache._assert_doesnt_have_norm_cased_file', 'Cache._assert_doesnt_have_subbuild', 'Cache._assert_no_repeats', 'Cache._use_cached_operation', 'Cache.abort_building_file', 'Cache.created_file', 'Cache.created_norm_cased_file', 'Cache.finish_building_file', 'Cache.finish_subbuild', 'Cache.start_building_file', 'Cache.start_subbuild', 'Cache.use_cached_operation', 'FileBuilder._apply_cached_suboperations', 'FileBuilder._are_suboperations_cached', 'FileBuilder._assert_build_file_call_valid', 'FileBuilder._build_file', 'FileBuilder._build_file_cache_lookup', 'FileBuilder._dirs_to_make', 'FileBuilder._handle_error_building_file', 'FileBuilder._is_build_file_cached', 'FileBuilder._is_build_file_operation_cached', 'FileBuilder._is_simple_operation_cached', 'FileBuilder._is_subbuild_operation_cached', 'FileBuilder._make_dirs', 'FileBuilder._make_room', 'FileBuilder._noneable_file_comparison_result', 'FileBuilder._prepare_file_creation', 'FileBuilder._rebuild_file', 'FileBuilder._subbuild', 'FileBuilder._subbuild_cache_lookup', 'FileBuilder._try_to_reuse_cached_file', 'FileBuilder.build_file_with_comparison', 'FileBuilder.subbuild']
 SITES = False
 ORDER = False
